@@ -126,7 +126,7 @@ def correspondence(ctx):
         c.error = "cannot set up the custom-exception pool: %r" % (ex,)
         return c
     r = Rng(ctx.seed).fork("c09")
-    specs, custom = vc.gen_specs(r, ctx.budget(4, 14))
+    specs, custom = vc.gen_specs(r, ctx.budget(4, 20))
     lines, metas = [], []          # metas: (case, keys, obs, info, label, sig)
     t0 = time.time()
 
@@ -182,7 +182,7 @@ def correspondence(ctx):
             c.count("skipped:" + str(ex)[:40])
     t1 = time.time()
     # 2. crafted payloads, direct
-    for _ in range(ctx.budget(6000, 60000)):
+    for _ in range(ctx.budget(6000, 150000)):
         p, rr = vc.gen_payload(r), r.choice(RECVS)
         try:
             line, obs, info = vc.run_payload_direct(p, rr)
@@ -201,7 +201,7 @@ def correspondence(ctx):
         return pairs[(s, rr)]
 
     try:
-        per = ctx.budget(2, 8)
+        per = ctx.budget(2, 12)
         for i, spec in enumerate(specs + custom):
             local_cls = spec["cls"] in ("builtins:SystemExit", "builtins:KeyboardInterrupt")
             cfgs = [(s, rr) for s in E2E_SENDS for rr in RECVS]
@@ -215,7 +215,7 @@ def correspondence(ctx):
                 add(dict(kind="exc", spec=spec, s=s, r=rr, mode="e2e"), ["imp", "init", "seen"], line, obs, info,
                     "e2e:" + ("custom" if not spec["cls"].startswith("builtins:") else "builtin"),
                     _sig_exc("e", spec, s, rr, obs["seen"]))
-        for k in range(ctx.budget(2500, 15000)):
+        for k in range(ctx.budget(2500, 30000)):
             p, rr = vc.gen_payload(r), r.choice(RECVS)
             try:
                 line, obs, info = vc.run_payload_e2e(pair_for("TTFF", rr), p, rr, sync=(k % 5 != 4))
@@ -522,7 +522,14 @@ def oracle_search(ctx, corr, broken):
             continue
         if res:
             msg, sig = res
-            case = shrink(case, sig, known)
+            small = shrink(case, sig, known)
+            if small is not case:
+                try:
+                    again = _case_oracle(small, known)
+                    if again and again[1] == sig:
+                        case, msg = small, again[0]
+                except Exception:  # noqa
+                    pass
             return case, msg, sig
     return None
 
